@@ -127,6 +127,9 @@ class ListProxy(list, ContainerValueMixin):
         for index, candidate in enumerate(self):
             if candidate is item:
                 return str(index)
+        if isinstance(item, Config):
+            # a configuration that is not in the list (yet) is the one being added
+            return str(len(self))
         try:
             return str(self.index(item))
         except:  # noqa: E722
